@@ -33,7 +33,8 @@ ASSUMPTIONS = ['M-verify (sim/model.py) defines the offending set; files that th
 
 
 def generate(rng, tier, idx):
-    g = GT.gen_tree(rng, {'top': 'Manifest', 'max_dirs': 7, 'max_files': 12, 'p_conflict': 0.05, 'p_dup': 0.08})
+    g = GT.gen_tree(rng, {'top': 'Manifest', 'max_dirs': 7, 'max_files': 12, 'p_conflict': 0.05, 'p_dup': 0.08, 'p_wrong_dup': 0.2,
+                          'p_second_manifest_ref': 0.15, 'p_second_manifest_ref_wrong': 0.4})
     info = g['info']
     nm = rng.choice([1, 2, 2, 3, 3, 4, 5, 6, 8])
     muts = GT.gen_mutations(rng, info, nm, allow_manifest=rng.random() < 0.15)
@@ -149,6 +150,9 @@ def execute(sc):
             if r[0] == 'GE' and r[1] == 'UnsupportedHash' and v.unsupported:
                 zones['verdict:unsupported-hash-in-entry'] = zones.get('verdict:unsupported-hash-in-entry', 0) + 1
                 continue
+            if r[0] == 'GE' and r[1] == 'ManifestMismatch' and r[2].path in v.bad_refs:
+                zones['verdict:wrong-second-manifest-reference-raised-at-load'] = zones.get('verdict:wrong-second-manifest-reference-raised-at-load', 0) + 1
+                continue
             if r[0] != 'ok':
                 violations.append(viol('keepgoing.raised', '%s: model says %s, gemato raised %s' % (what, v.kind, describe(r)),
                                        sig='%s:%s' % (r[0], r[1])))
@@ -172,7 +176,9 @@ def execute(sc):
             judged += 1
             if len(must) >= 2:
                 multi += 1
-            if cli is not None:
+            if cli is not None and v.bad_refs:
+                zones['cli-skipped-wrong-second-manifest-reference'] = zones.get('cli-skipped-wrong-second-manifest-reference', 0) + 1
+            elif cli is not None:
                 if cli['kind'] == 'INTERNAL':
                     results.append(('INTERNAL', cli['name'], cli['exc']))
                 elif cli['kind'] != 'ok':
